@@ -363,7 +363,7 @@ def c13_jobs(tier):
     js += [job("ZZ_C13_Filter", S, n=n, e=1, mode=0) for n in [1, 2]]
     js += [job("ZZ_C13_Filter", S, n=1, e=2, mode=1), job("ZZ_C13_Filter", S, n=2, e=1, mode=1)]
     for sel in range(13):
-        for frm, span in ([(2019, 4)] if q else [(2019, 4), (0, 4), (9995, 4)]):
+        for frm, span in ([(2019, 4)] if q else [(2019, 4), (1, 4), (9995, 4)]):
             js.append(job("ZZ_C13_Shortcuts", U, **{"from": frm, "span": span, "sel": sel, "_split": 65536}))
     if not q:
         js += [job("ZZ_C13_Filter", S, n=1, e=1, mode=2)]
@@ -534,7 +534,7 @@ CHECKS = {
     "C13": {
         "jobs": c13_jobs,
         "bounds": {"quick": "shortcut filters this/last week, month, quarter, year, --today/--yesterday/--tomorrow and --after/--before for every reference date 2019-2022 against records on the first/last day of the reference period and their neighbours; sort of 1-3 records with symbolic dates (2019-2021, any month, day 1-28) written with either date separator (mixed notations), asc and desc; date clauses (--date, --since, --since+--until) on 1-2 records with symbolic dates; tag clauses (#x, #y, #x=v at record and entry level) x 5 entry types x all entry kinds on 1 record x 2 entries and 2 records x 1 entry",
-                   "thorough": "shortcuts also for the reference years 0000-0003 and 9995-9998; all clause kinds combined on one record x one entry (larger tag / type products, sorting 4 records with mixed notations and date clauses on 3 records exceed the time budget and are not registered)"},
+                   "thorough": "shortcuts also for the reference years 0001-0004 and 9995-9998 (a wall clock in year 0000 or 9999, where the previous / next period is not representable, is not an input of the property); all clause kinds combined on one record x one entry (larger tag / type products, sorting 4 records with mixed notations and date clauses on 3 records exceed the time budget and are not registered)"},
         "outside": "--period with a literal pattern through ApplyFilter (pattern -> period is C15; period -> since/until is the date-clause path covered here); sort of more than 12 records (pdqsort leaves its insertion-sort regime)",
         "stubs": [MODELS["sort"], MODELS["regexp"]],
         "assumptions": COMMON_ASSUME + ["dates are raw field triples (Filter and Sort only compare year/month/day)"],
